@@ -33,7 +33,7 @@ Verdict(e) ==
                 gi == GoodIdx(cfg)
             IN IF UsesJqSpelling(e.toks) /\ e.exit = 2 /\ e.stdout = "" THEN "args.jq_rawfile_spelling_rejected"
                ELSE IF ~namesOK THEN "BADTAG"
-               ELSE IF EmptyRawText(cfg) /\ e.exit = Built(cfg).exit /\ e.stdout = Built(cfg).out /\ e.stdout # r.out
+               ELSE IF EmptyRawText(cfg) /\ e.exit = Built(cfg).exit /\ e.stdout = Built(cfg).out /\ (e.stdout # r.out \/ e.exit # r.exit)
                     THEN "rawinput.empty_text_yields_one_empty_line"
                ELSE IF e.exit # r.exit THEN "exit." \o tag \o ".req" \o ToString(r.exit) \o ".got" \o ToString(e.exit)
                ELSE IF e.stdout # r.out THEN "out." \o tag
